@@ -707,6 +707,38 @@ func (e *env) write(op Op, tw *twin, pick func(col, idx int) *mdoc, forceVisible
 		}
 		return e.writeDoc(op, d, by, tw)
 
+	case "recreate":
+		// A create with the content of an existing document names the same docID. Whoever issues it, it
+		// must be refused and change nothing - in particular it must not write over a document the
+		// requester cannot read (which the existence check inside create reports as absent).
+		d := pick(col, op.Doc)
+		if d == nil {
+			return nil
+		}
+		q := ""
+		for _, s := range e.log {
+			if s.doc == d && strings.HasPrefix(s.q, "mutation { create_") {
+				q = s.q
+				break
+			}
+		}
+		if q == "" {
+			return nil
+		}
+		by := op.By
+		r := e.execReal(by, q)
+		e.st.add("op:recreate")
+		if !d.canRead(by) {
+			e.st.add("op:recreate-of-unreadable-doc")
+		}
+		if r.Panic != "" {
+			return hx.Failf("C10/panic/recreate", "%s as %s panicked: %s", q, who(by), r.Panic)
+		}
+		if r.OK() {
+			return hx.Failf("C10/write/recreate-accepted", "%s as %s (may read the document: %v) succeeded although %s exists: %s", q, who(by), d.canRead(by), d, show(r))
+		}
+		return e.docUnchanged(d, fmt.Sprintf("rejected re-create of %s by %s", d, who(by)))
+
 	case "grant", "revoke":
 		d := pick(col, op.Doc)
 		if e.forceDoc != nil {
